@@ -72,13 +72,15 @@ class C10(Prop):
             cases.append({"sys": {k: (v.tolist() if isinstance(v, np.ndarray) else v) for k, v in sys.items()}, "B": B, "neutral": neutral,
                           "objective": rng.choice(["unity", "unity", "max"]), "scale_w": rng.choice([1.0, [1.0, 2.0], [0.5, 1.0]]),
                           "d1": rng.choice([1e-6, 1e-5, 1e-4, 1e-3]), "dr": rng.choice([1e-6, 1e-5, 1e-4, 1e-3]), "scen": scen,
+                          "w": ([rng.choice([0.05, 0.25, 0.5, 2.0, 4.0]) for _ in range(m)] if rng.random() < 0.4 else None),
                           "kind": "%s/S%d/%s/%s" % (scen, S, "np" if neutral else "ones", "max" if cases and False else "")})
             cases[-1]["kind"] = "%s/%s/%s" % (scen, cases[-1]["objective"], "np" if neutral else "ones")
         return cases
 
     def run_impl(self, case):
         sys = C04.sysnp(case)
-        est = gs.make_estimator(sys)
+        # importance weights of the estimator play no role in the adaptive fit (the deltas are absolute): some estimators carry them
+        est = gs.make_estimator(sys, **({"w": np.array(case["w"])} if case.get("w") else {}))
         sw = np.array(case["scale_w"]) if isinstance(case["scale_w"], list) else case["scale_w"]
         kw = {}
         if case["neutral"] is not None:
